@@ -203,7 +203,18 @@ def build(args):
             if r.returncode != 0 or a != b:
                 obs["cli_same"] = False
                 obs["cli_detail"] = (r.stderr or "")[-300:]
+    # the parameter lines of the input, read by the harness itself: name flag value error
+    input_pars = []
+    for ln in Path(path).read_text().splitlines():
+        parts = ln.split("#")[0].split()
+        if len(parts) == 4 and not ln.startswith(("EventType", "FastCoherentSum")) and "{" not in parts[0]:
+            try:
+                flag, v, e = int(parts[1]), float(parts[2]), float(parts[3])
+            except ValueError:
+                continue
+            input_pars.append([parts[0], fnum(v), "fixed" if flag > 0 else fnum(e)])
     return {"prop": "C19", "cid": cid, "file": Path(path).name if text is None else "generated", "text": text, "exempt": exempt,
+            "input_pars": input_pars,
             "titles": titles, "obs": obs, "raw_py": raw.get("py", "")[:0]}
 
 
